@@ -12,6 +12,7 @@
     siblings; [line_ok] says a text line is: one unit per flag ("│  " for true,
     "   " for false), then "├─ " (not last) or "╰─ " (last) — nothing for a
     top-level line —, then the name, then padding and the cells. *)
+From DivanV Require Import Model.PaintThreads Proofs.PaintThreads.
 From DivanV Require Import Base.Res Generated.Consts2 Model.Painter Model.DriverPaint Model.Parse Model.PaintOk
   Proofs.Painter Proofs.PaintDriver Proofs.PaintPrefix Proofs.PaintOrder
   Proofs.PaintParse Proofs.PaintParse2 Proofs.PaintCalls Proofs.PaintOk.
@@ -131,3 +132,13 @@ Theorem C20_glyph_consts :
   Consts2.max_common_column_width = N.of_nat DriverPaint.max_common_column_width.
 Proof. repeat split; reflexivity. Qed.
 Print Assumptions C20_glyph_consts.
+
+(** The thread-count branches painted for a benchmark: every 0 read as the
+    available parallelism [par], then strictly increasing — each distinct
+    resolved count exactly once, in sorted order ([run_bench_entry]'s
+    normalisation, modelled in Model/PaintThreads.v). *)
+Theorem C20_threads_norm : forall par raw,
+  incr (norm_threads par raw) /\
+  forall n, In n (norm_threads par raw) <-> In n (resolve_threads par raw).
+Proof. exact threads_norm. Qed.
+Print Assumptions C20_threads_norm.
